@@ -21,16 +21,21 @@ def both(hw, fmt, old, new, files=None):
     file worker is driven on disk as well: the SAME two paths are rewritten in place for every case of the run"""
     from annet import api
     dev = E.device(hw)
-    out = {"fcmds": [], "dcmds": [], "fdiff": [], "ddiff": [], "ferr": False, "derr": False, "wlines": [], "dlines": []}
+    from annet import patching
+    from annet.annlib.diff import gen_pre_as_diff
+    out = {"fcmds": [], "dcmds": [], "fdiff": [], "ddiff": [], "ferr": False, "derr": False, "wlines": [], "dlines": [], "fview": [], "dview": []}
     dpatch = None
     try:
         ddiff, dpatch = api._diff_and_patch(dev, E.cp(old), E.cp(new), None, None, False)
         out["dcmds"], out["ddiff"] = cases.jpaths(fmt.cmd_paths(dpatch)), cases.jdiff(ddiff)
+        out["dview"] = [ln.split() for ln in gen_pre_as_diff(patching.make_pre(ddiff), False, "  ", True)]
     except Exception as e:
         out["derr"], out["dexc"] = True, repr(e)
     try:
         _rb, fdiff, _pre, fpatch = api._read_old_new_diff_patch(E.cp(old), E.cp(new), hw, False)
         out["fcmds"], out["fdiff"] = cases.jpaths(fmt.cmd_paths(fpatch)), cases.jdiff(fdiff)
+        # what `annet file-diff` prints comes from the grouped diff this front end hands back
+        out["fview"] = [ln.split() for ln in gen_pre_as_diff(_pre, False, "  ", True)]
     except Exception as e:
         out["ferr"], out["fexc"] = True, repr(e)
     if files is not None and dpatch is not None and not out["ferr"]:
@@ -93,13 +98,14 @@ def run(ctx):
 
     files = (os.path.join(ctx.scratch, "old.cfg"), os.path.join(ctx.scratch, "new.cfg"))
 
-    def add(tag, vendor, hw, old, new):
+    def add(tag, vendor, hw, old, new, disk=None):
         fmt = registry_connector.get().match(hw).make_formatter(indent="")
         rec = {"id": "%s-%d" % (tag, len(recs)), "vendor": vendor, "old": cases.jtree(old), "new": cases.jtree(new)}
         try:
-            rec.update(both(hw, fmt, old, new, files if len(recs) % 3 == 0 else None))
+            rec.update(both(hw, fmt, old, new, files if (disk or (disk is None and len(recs) % 3 == 0)) else None))
         except Exception as e:
-            rec.update({"fcmds": [], "dcmds": [], "fdiff": [], "ddiff": [], "ferr": True, "derr": True, "wlines": [], "dlines": [], "exc": repr(e)})
+            rec.update({"fcmds": [], "dcmds": [], "fdiff": [], "ddiff": [], "ferr": True, "derr": True, "wlines": [], "dlines": [], "fview": [], "dview": [],
+                        "exc": repr(e)})
         recs.append(rec)
         ctx.count()
         if rec["dcmds"]:
@@ -139,6 +145,11 @@ def run(ctx):
             new = fam.build([fam.sep.join(x) for x in ln], **({"blocks": []} if kw else {}))
             add("vlanfam", hw.vendor, hw, old, new)
     ctx.sample({"vendor": recs[0]["vendor"], "old": recs[0]["old"], "new": recs[0]["new"], "device_mode_cmds": recs[0]["dcmds"]})
+    # a line ends at "\n" and nowhere else: descriptions holding a form feed, U+2028 or a lone carriage return stay one row in both front ends
+    hwh = E.hwview("Huawei CE6870", "")
+    for ch in ("\u2028", "\x0c", "\x85", "\r"):
+        add("oddchar", "huawei", hwh, od([("interface 10GE1/0/1", od([("description uplink%s(see ticket)" % ch, od()), ("mtu 9000", od())]))]),
+            od([("interface 10GE1/0/1", od([("description uplink%s(see ticket)" % ch, od()), ("mtu 1500", od())]))]), disk=True)
     # inputs on which a rule logic raises (a legal line the cisco VLAN logic refuses): both front ends must fail alike
     for model in ("Cisco Catalyst C3750", "Cisco Nexus 9336"):
         hw = E.hwview(model, "")
@@ -148,7 +159,7 @@ def run(ctx):
                        (["switchport trunk allowed vlan 2-4", "description x"], ["switchport trunk allowed vlan all", "description y"])):
             add("raises", hw.vendor, hw, od([("hostname a", od()), (iface, od((r, od()) for r in lo))]),
                 od([("hostname b", od()), (iface, od((r, od()) for r in ln))]))
-    slim = [{k: r[k] for k in ("id", "fcmds", "dcmds", "fdiff", "ddiff", "ferr", "derr", "wlines", "dlines")} for r in recs]
+    slim = [{k: r[k] for k in ("id", "fcmds", "dcmds", "fdiff", "ddiff", "ferr", "derr", "wlines", "dlines", "fview", "dview")} for r in recs]
     verd = ctx.judge("trace/Trace_FrontEnds.tla", "trace/Trace.cfg", slim, shards=16)
     for r in recs:
         v = verd[r["id"]]
